@@ -17,14 +17,16 @@ components of as_datetime, a decrease between two ordered serials outside the kn
 violation.  Known class F16 (serial on the fictitious 1900-02-29) is classified by the extracted
 known_C11.  The eight serde helpers deserialize_as_{datetime,date,time,duration}_or_{none,string}
 are run on real Range<Data> rows through RangeDeserializer; their specification is "the cell's own
-conversion"; known classes F34 (1904 flag lost) and F35 (duration always None) are classified by
-the extracted known_C11_helper_dt / known_C11_helper_dur."""
+conversion" (checked twice: by the oracle, and against what the implementation itself answers for
+cell.as_datetime()/as_date()/as_time()/as_duration()).  F34 (1904 flag lost) and F35 (duration
+always None) are fixed: no known class is left at the helpers and their former witnesses are corpus
+regressions (HELPER_REGRESSIONS)."""
 import datetime, math, re, struct
 from fractions import Fraction
 import vlib
 
 ASSUMPTIONS = [
-    "ISO-string cells (Data::DateTimeIso / DurationIso) go through chrono's string parser and are outside the model",
+    "ISO-string cells (Data::DateTimeIso / DurationIso) go through chrono's string parser and are outside the model; for them only 'helper = the implementation's own cell conversion' is checked (check_iso_helpers)",
     "DataRef shares the trait's default methods with Data; only Data is exercised",
     "a chrono NaiveDate is identified with its day number; the identification (year, month, day as chrono reports them = Civil.civil_of_days) is checked on every case, exhaustively for days 0..2958465 in the thorough tier",
     "NaN payloads are not observable through this API (all answers are integers or None)",
@@ -354,11 +356,17 @@ def classify_batch(ctx, cases, tag, sample=True):
     for s in (False, True):
         check_monotone(ctx, mono[s], s)
 
-HSTRIP = re.compile(r"\|H([^/|]*)/([^|]*)$")
+# former witnesses of F34 / F35 and their neighbours: a 1904-system date, a 36 h duration, both
+# flags together, the 1904 shim region, the fictitious leap day seen from the 1904 system
+HELPER_REGRESSIONS = [
+    ("dt", 45000.5, True), ("td", 1.5, False), ("td", 45000.5, True), ("td", 1.5, True), ("dt", 1.5, True),
+    ("dt", 0.0, True), ("td", 0.0, True), ("dt", -1401.5, True), ("dt", -1462.0, True), ("td", -0.25, False),
+    ("dt", 2958465.0 - 1462.0, True), ("dt", 2958465.0, True), ("td", 1e9, True), ("td", 106751991167.3, False),
+]
 
 def gen_helper_cases(ctx, n):
     rng = ctx.rng
-    cases = []
+    cases = [(k, bits_of(x), s) for k, x, s in HELPER_REGRESSIONS]
     for x in CORPUS_FLOATS:
         for k in ("float", "dt", "td"):
             for s in (False, True):
@@ -375,23 +383,23 @@ def gen_helper_cases(ctx, n):
 
 def classify_helpers(ctx, cases, tag):
     """the eight serde helpers on a cell: implementation vs. model, and vs. the specification
-    (a helper returns the cell's own conversion) outside the classes named by the model"""
+    (a helper returns the cell's own conversion: by the oracle, and by the implementation's own
+    cell.as_*() answers) — for every cell, no known class"""
     lines = [case_line("%s%d" % (tag, k), c[0], c[1], c[2], "de") for k, c in enumerate(cases)]
-    impl, model = ctx.run_both(lines)
+    own_lines = [case_line("%so%d" % (tag, k), c[0], c[1], c[2], "all") for k, c in enumerate(cases)]
+    impl, model = ctx.run_both(lines + own_lines)
     for k, (kind, value, sys1904) in enumerate(cases):
         cid = "%s%d" % (tag, k)
-        i, mraw = impl.get(cid), model.get(cid)
+        i, m = impl.get(cid), model.get(cid)
+        own, own_m = impl.get("%so%d" % (tag, k)), split_model(model.get("%so%d" % (tag, k)))[0]
         ctx.traces += 1
         ctx.count("helper_kind:" + kind)
-        m, kdt, kdur = mraw, None, None
-        hm = HSTRIP.search(mraw or "")
-        if hm:
-            m = mraw[:hm.start()]
-            kdt = None if hm.group(1) == "-" else hm.group(1)
-            kdur = None if hm.group(2) == "-" else hm.group(2)
         if i != m:
             ctx.disagreements.append({"function": "deserialize_as_*_or_none/_or_string", "case": lines[k],
-                                      "impl": i, "model": mraw})
+                                      "impl": i, "model": m})
+        if own != own_m:
+            ctx.disagreements.append({"function": "DataType::as_* (helper reference)", "case": own_lines[k],
+                                      "impl": own, "model": own_m})
         if i is None or kind == "error":
             continue            # an error cell: the property says nothing; model/implementation only
         f = i.split("|")
@@ -400,47 +408,88 @@ def classify_helpers(ctx, cases, tag):
             bad = ("malformed or failed deserialization", i)
         elif [("N" if x == "E" else x) for x in f[4:]] != f[:4]:
             bad = ("_or_string variant differs from _or_none variant", i)
+        elif own is not None and "|".join(f[:4]) != own:
+            bad = ("helper differs from the cell's own conversion %s" % own, i)
         else:
-            if kdt:
-                ctx.count("known_class:" + kdt)
-            if kdur:
-                ctx.count("known_class:" + kdur)
-            bad = spec_check(kind, value_of(kind, value), sys1904, "|".join(f[:4]),
-                             skip_dt=kdt is not None, skip_dur=kdur is not None)
+            bad = spec_check(kind, value_of(kind, value), sys1904, "|".join(f[:4]))
         if bad:
             ctx.violations.append({"case": lines[k], "expected": "per specification (helper = the cell's own conversion): " + bad[0],
-                                   "actual": i, "model": mraw, "what": bad[1]})
+                                   "actual": i, "model": m, "what": bad[1]})
         if len(f) == 8 and f[0] != "N":
             ctx.nontrivial("de:%s:%d:%d" % (kind, value, sys1904))
 
-def check_helper_classes(ctx):
-    """F34 / F35 witnesses on the implementation: honoured only while they still fail"""
+def check_helper_regressions(ctx):
+    """the witnesses of the fixed findings F34 / F35, spelled out: a 1904-system cell through the
+    datetime helper gives the 1904 date; a 36 h duration cell through the duration helper gives 36 h"""
     w1904 = ("dt", bits_of(45000.5), True)
     w36h = ("td", bits_of(1.5), False)
-    lines = [case_line("hw0", *w1904, "de"), case_line("hw1", *w1904, "all"),
-             case_line("hw2", *w36h, "de"), case_line("hw3", *w36h, "all")]
+    lines = [case_line("hw0", *w1904, "de"), case_line("hw2", *w36h, "de")]
     impl, model = ctx.run_both(lines)
-    ctx.traces += 4
-    for cid, ln in zip(("hw0", "hw1", "hw2", "hw3"), lines):
-        m = model.get(cid) or ""
-        m = HSTRIP.sub("", m) if cid in ("hw0", "hw2") else split_model(m)[0]
-        if impl.get(cid) != m:
-            ctx.disagreements.append({"function": "deserialize_as_* witnesses", "case": ln,
+    ctx.traces += 2
+    exp = {"hw0": (0, "D20893,43200,0,2027-3-16", "F34: helper converts a 1904-system cell in the 1900 system"),
+           "hw2": (3, "129600,0,129600000", "F35: duration helper does not return the duration of a duration cell")}
+    for cid, ln in zip(("hw0", "hw2"), lines):
+        if impl.get(cid) != model.get(cid):
+            ctx.disagreements.append({"function": "deserialize_as_* regressions", "case": ln,
                                       "impl": impl.get(cid), "model": model.get(cid)})
-    def field(cid, j):
+        j, want, what = exp[cid]
         f = (impl.get(cid) or "").split("|")
-        return f[j] if j < len(f) else None
-    for fid, fails, ex, ln in (
-            ("F34", field("hw0", 0) != field("hw1", 0), {"helper": field("hw0", 0), "cell.as_datetime()": field("hw1", 0)}, lines[0]),
-            ("F35", field("hw2", 3) != field("hw3", 3), {"helper": field("hw2", 3), "cell.as_duration()": field("hw3", 3)}, lines[2])):
-        if fails:
-            if ctx.known_finding(fid):
-                ctx.known_hits[fid] = ex
-            else:
-                ctx.violations.append({"case": ln, "expected": str(ex), "actual": impl.get(ln.split("\t", 1)[0]), "model": None,
-                                       "what": "serde helper does not return the cell's own conversion and finding %s is not registered" % fid})
-        else:
-            ctx.notes.append("known class %s no longer reproduces on the implementation: remove it from Serial.known_C11_helper_*" % fid)
+        got = f[j] if j < len(f) else None
+        if got != want:
+            ctx.violations.append({"case": ln, "expected": want, "actual": impl.get(cid), "model": model.get(cid),
+                                   "what": "regression of a fixed finding — " + what})
+
+ISO_TEXTS = [
+    "2021-01-01", "2021-01-01T10:10:10", "2021-01-01T10:10:10.123", "1899-12-30", "9999-12-31T23:59:59.999", "0001-01-01",
+    "10:10:10", "23:59:59.5", "00:00:00", "PT10H10M10S", "PT10H10M10.123456S", "PT0H0M0S", "PT23H59M59.999S",
+    "", "x", "2021-13-01", "2021-02-30", "24:00:00", "PT25H0M0S", "PT10H", "P1D", "2021", "45000.5", " 2021-01-01", "2021-01-01 ",
+    "2021-01-01 10:10:10", "2021-01-01T10:10", "+2021-01-01", "-0001-01-01", "20210101",
+]
+
+def check_iso_helpers(ctx):
+    """ISO cells of an ods file (Data::DateTimeIso / DurationIso), implementation only (the model
+    has no ISO cells): the eight helpers return what the implementation itself answers for
+    cell.as_datetime()/as_date()/as_time()/as_duration() — they used to answer None for all of them
+    (the helper saw Data::String), which the same repair as F34/F35 put right"""
+    rng = ctx.rng
+    texts = list(ISO_TEXTS)
+    for _ in range(ctx.scale(150, 1500)):
+        y, mo, d = rng.randrange(1, 10000), rng.randrange(1, 14), rng.randrange(1, 33)
+        h, mi, se = rng.randrange(0, 25), rng.randrange(0, 61), rng.randrange(0, 61)
+        fr = rng.choice(["", ".5", ".%03d" % rng.randrange(1000), ".%09d" % rng.randrange(10 ** 9)])
+        texts.append(rng.choice(["%04d-%02d-%02d" % (y, mo, d), "%04d-%02d-%02dT%02d:%02d:%02d%s" % (y, mo, d, h, mi, se, fr),
+                                 "%02d:%02d:%02d%s" % (h, mi, se, fr), "PT%dH%dM%d%sS" % (h, mi, se, fr)]))
+    cases = [(k, t) for t in texts for k in ("iso", "isodur")]
+    lines = []
+    for n, (k, t) in enumerate(cases):
+        hx = t.encode().hex() or "-"
+        lines.append("i%d\tserial\t%s\t%s\t0\tde" % (n, k, hx))
+        lines.append("j%d\tserial\t%s\t%s\t0\tall" % (n, k, hx))
+    impl = ctx.run_impl(lines)
+    some = 0
+    for n, (k, t) in enumerate(cases):
+        de, own = impl.get("i%d" % n), impl.get("j%d" % n)
+        ctx.traces += 1
+        ctx.count("helper_kind:" + k)
+        f = (de or "").split("|")
+        bad = None
+        if own is None or len(own.split("|")) != 4 or "panic" in own:
+            bad = "cell conversion failed: %r" % own
+        elif len(f) != 8:
+            bad = "malformed or failed deserialization"
+        elif [("N" if x == "E" else x) for x in f[4:]] != f[:4]:
+            bad = "_or_string variant differs from _or_none variant"
+        elif "|".join(f[:4]) != own:
+            bad = "helper differs from the cell's own conversion %s" % own
+        if bad:
+            ctx.violations.append({"case": lines[2 * n], "expected": "helper = the cell's own conversion: %s" % own, "actual": de,
+                                   "model": None, "what": "%s cell %r: %s" % (k, t, bad)})
+        elif own != "N|N|N|N":
+            some += 1
+            ctx.nontrivial("iso:%s:%s" % (k, t))
+    if some < 20:
+        ctx.violations.append({"case": lines[0], "expected": "ISO cells that convert", "actual": str(some), "model": None,
+                               "what": "ISO generator degenerated: fewer than 20 ISO cells converted to anything"})
 
 def check_monotone(ctx, pts, sys1904):
     pts.sort(key=lambda p: (p[0], p[1]))
@@ -540,7 +589,8 @@ def boundary_sweep(ctx, n):
 # ------------------------------------------------------------------ entry points
 def run(ctx):
     check_known_class(ctx)
-    check_helper_classes(ctx)
+    check_helper_regressions(ctx)
+    check_iso_helpers(ctx)
     scale = ctx.scale(1, 4)
     classify_batch(ctx, gen_quick(ctx, scale), "q")
     classify_helpers(ctx, gen_helper_cases(ctx, 1500 * scale), "h")
@@ -564,25 +614,37 @@ def replay(ctx, rep):
     print("replaying:", case)
     impl, model = ctx.run_both([case])
     cid = case.split("\t", 1)[0]
+    f = case.split("\t")
+    if f[2] in ("iso", "isodur"):
+        # implementation only: helper = the implementation's own cell conversion
+        own = ctx.run_impl(["\t".join(["own"] + f[1:5] + ["all"])]).get("own")
+        i = impl.get(cid) or ""
+        g = i.split("|")
+        print("impl (helpers)       :", i)
+        print("impl (cell's own as_*):", own)
+        ok = len(g) == 8 and [("N" if x == "E" else x) for x in g[4:]] == g[:4] and "|".join(g[:4]) == own
+        print("helper = the cell's own conversion:", ok)
+        return 0 if ok else 1
     print("impl :", impl.get(cid))
     print("model:", model.get(cid))
     print("expected:", rep.get("expected"))
-    f = case.split("\t")
     kind, value, s = f[2], int(f[3]), f[4] == "1"
     if len(f) > 5 and f[5] == "de":
-        mraw = model.get(cid) or ""
-        hm = HSTRIP.search(mraw)
-        mm = mraw[:hm.start()] if hm else mraw
-        kdt = hm and hm.group(1) != "-"
-        kdur = hm and hm.group(2) != "-"
+        mm = model.get(cid) or ""
         i = impl.get(cid) or ""
+        own_line = "\t".join(["own"] + f[1:5] + ["all"])
+        oi, _ = ctx.run_both([own_line])
+        own = oi.get("own")
+        print("cell's own conversion (implementation):", own)
         g = i.split("|")
         bad = None
         if kind != "error":
             if len(g) != 8 or [("N" if x == "E" else x) for x in g[4:]] != g[:4]:
                 bad = ("malformed, failed, or _or_string differs from _or_none", i)
+            elif "|".join(g[:4]) != own:
+                bad = ("helper differs from the cell's own conversion", own)
             else:
-                bad = spec_check(kind, value_of(kind, value), s, "|".join(g[:4]), skip_dt=bool(kdt), skip_dur=bool(kdur))
+                bad = spec_check(kind, value_of(kind, value), s, "|".join(g[:4]))
         print("helper case; implementation equals model:", i == mm, "; specification check:", "ok" if not bad else bad)
         return 0 if (i == mm and not bad) else 1
     m, known, _ = split_model(model.get(cid))
